@@ -52,7 +52,8 @@ theorem rt_all (p : Nat → Bool) : (e : Expr) → inFrag e = true → Good p e
     have ihv := rt_all p v hv
     have ihs := rt_all p s hs
     refine good_of_trail p rfl ?_ (trailRT_subscript p v s ihv.trail
-      (subOK_of_elem p (.plain ⟨ihs, plain_of_inFrag p hs⟩) (unparse_plainIndex p s hs hp)))
+      (subOK_of_elem p (.plain ⟨ihs, plain_of_inFrag p hs⟩) (unparse_plainIndex p s hs hp)
+        (by cases s <;> first | rfl | simp [inFrag] at hs)))
     obtain ⟨t, r, ht, hg⟩ := firstTok p (.subscript v s) h 15
     exact ⟨t, r, ht, hg⟩
   | .await v, h => by
